@@ -441,6 +441,18 @@ def mutations(base, label, sites="all"):
                 mm = members(c2)[i]
                 mm.set("required", "N" if mm.get("required") == "Y" else "Y")
             out.append(Variant("%s/toggle-required %s" % (label, tag), s))
+    # a group / component / message emptied of all its members: the generator may refuse it (it does, for groups
+    # and components); if it accepts it, the statement applies
+    for ci, (cname, conts) in enumerate(containers(b)):
+        if cname in ("header", "trailer") or (sites != "all" and ci % sites != 0):
+            continue
+        if any(m.get("name") in PIPELINE for m in members(conts[0])):
+            continue
+        s = b.clone()
+        for c2 in dict(containers(s))[cname]:
+            for m in members(c2):
+                c2.remove(m)
+        out.append(Variant("%s/empty %s" % (label, cname), s, may_reject=True))
     # rename a field consistently
     for fi, fname in enumerate(list(b.fields())):
         if fname in EXCLUDED or fname in PIPELINE or fname.startswith("No"):
